@@ -331,6 +331,10 @@ class Scenario:
         """What the application awaits to unload the overlay under test."""
         return ctx.ov.unload()
 
+    def children(self, ctx: Ctx) -> list:
+        """Overlays the overlay under test has created itself and therefore has to take down with it."""
+        return []
+
     quiesce_after: float | None = None      # seconds after the late traffic at which quiesce() is called
 
     def quiesce(self, ctx: Ctx) -> None:
@@ -596,6 +600,32 @@ class HiddenScenario(TunnelScenario):
 
     cls = HiddenTunnelCommunity
     info_hash = b"\x42" * 20
+
+    def build(self, seed: int) -> Ctx:
+        from threading import RLock
+
+        from ipv8_service import IPv8
+        ctx = super().build(seed)
+        for ov in ctx.ov_by.values():
+            # settings.ipv8: the real IPv8 class (its add_strategy / unload_overlay are what hidden_services.py uses)
+            # without its constructor and without a ticker: the node becomes able to spawn its PexCommunity
+            service = IPv8.__new__(IPv8)
+            service.overlay_lock = RLock()
+            service.overlays = [ov]
+            service.strategies = []
+            ov.ipv8 = service
+        return ctx
+
+    def children(self, ctx: Ctx) -> list:
+        ov = ctx.ov
+        return [o for o in ov.ipv8.overlays if o is not ov]
+
+    def stimulate(self, ctx: Ctx) -> None:
+        super().stimulate(ctx)
+        # a member of the swarm's PEX overlay walks to the (former) introduction point
+        other = next(n for n in _others(ctx) if n != "O")
+        pex = ctx.nodes[other].add_overlay(PexCommunity, PexSettings(info_hash=self.info_hash))
+        ctx.call(other, pex.walk_to, ctx.nut.address)
 
     def phases(self) -> list[tuple]:
         def seed_swarm(c: Ctx) -> None:
@@ -1065,6 +1095,11 @@ def run_one(scn_name: str, k: int, variant: str, seed: int, thorough: bool):  # 
                      f"reference run: {done[-3:]} vs {ref_events[max(0, k - 3):k]}")], None, len(done)
         pre = pre_state(ctx)
         nut, ov, rec = ctx.nut, ctx.ov, ctx.rec
+        children = scn.children(ctx)
+        for child in children:                   # their handlers count as the overlay's own from now on
+            for i, h in enumerate(child.decode_map):
+                if h is not None:
+                    child.decode_map[i] = _wrap_handler(rec, h, f"{type(child).__name__}.{_handler_name(h)}[{i}]")
 
         # ---- unload ---------------------------------------------------------------------------------------------
         n_wire = len(w.wire_log)
@@ -1119,6 +1154,14 @@ def run_one(scn_name: str, k: int, variant: str, seed: int, thorough: bool):  # 
                 add(f"task-alive:{label}:registered", f"{when}: the overlay's TaskManager still tracks active tasks "
                                                       f"{own_tasks[:5]}")
         check_resources("when unload() returned")
+        for child in children:
+            ep = nut.endpoint
+            registered = any(l is child for l in ep._listeners) or any(  # noqa: SLF001
+                l is child for ls in ep._prefix_map.values() for l in ls)  # noqa: SLF001
+            if registered:
+                add(f"child-overlay-listening:{label}:{type(child).__name__}",
+                    f"the {type(child).__name__} this overlay created is still registered as listener on the endpoint "
+                    f"after unload() returned")
 
         # ---- late traffic ---------------------------------------------------------------------------------------
         n_late = len(w.inflight)
@@ -1143,6 +1186,10 @@ def run_one(scn_name: str, k: int, variant: str, seed: int, thorough: bool):  # 
                 kinds[2] += 1
             w.inject(src, nut_addr, data, note="late")
             w.flush()
+        for child in children:
+            for mid in (233, 234, 245, 246, 249, 250):
+                w.inject(peer_addr, nut_addr, child.get_prefix() + bytes([mid]) + b"\x00" * 8, note="late-child")
+                w.flush()
         scn.stimulate(ctx)
         w.flush()
         for t in list(loop.transports):
